@@ -112,13 +112,15 @@ func operation.Accept
   modifies cachePuts when istype(visitor, *insertVisitor)
   may_panic
   ensures istype(visitor, *computeHashVisitor) ==> bytes(result) == evalC(self, dyn(visitor, *computeHashVisitor).cache)
+  // (the hash-computing visitor panics on a value missing from the audit path: if it returns, all were there)
+  ensures istype(visitor, *computeHashVisitor) ==> readsOK(self, dyn(visitor, *computeHashVisitor).cache)
   ensures istype(visitor, *insertVisitor) ==> bytes(result) == evalI(self, dyn(visitor, *insertVisitor).cache)
 
 func operation.Position
   ensures result != nil
 
 func leafHashOp.Accept
-  props C02 C04 C12
+  props C02 C03 C04 C12
   requires !isnil(visitor)
   modifies everything when !istype(visitor, *computeHashVisitor) && !istype(visitor, *insertVisitor)
   modifies dyn(visitor, *insertVisitor).mutations when istype(visitor, *insertVisitor)
@@ -127,31 +129,34 @@ func leafHashOp.Accept
   ensures C02/evalC-leaf: istype(visitor, *computeHashVisitor) ==> bytes(result) == H(cat(bytes(o.Value), posb(o.pos.Index, o.pos.Height)))
   ensures C04/evalI-leaf: istype(visitor, *insertVisitor) ==> bytes(result) == H(cat(bytes(o.Value), posb(o.pos.Index, o.pos.Height)))
 func innerHashOp.Accept
-  props C02 C04 C12
+  props C02 C03 C04 C12
   requires !isnil(visitor)
   modifies everything when !istype(visitor, *computeHashVisitor) && !istype(visitor, *insertVisitor)
   modifies dyn(visitor, *insertVisitor).mutations when istype(visitor, *insertVisitor)
   modifies cachePuts when istype(visitor, *insertVisitor)
   may_panic
   ensures C02/evalC-inner: istype(visitor, *computeHashVisitor) ==> bytes(result) == H(cat(cat(evalC(o.Left, dyn(visitor, *computeHashVisitor).cache), evalC(o.Right, dyn(visitor, *computeHashVisitor).cache)), posb(o.pos.Index, o.pos.Height)))
+  ensures C03/reads-inner: istype(visitor, *computeHashVisitor) ==> readsOK(o.Left, dyn(visitor, *computeHashVisitor).cache) && readsOK(o.Right, dyn(visitor, *computeHashVisitor).cache)
   ensures C04/evalI-inner: istype(visitor, *insertVisitor) ==> bytes(result) == H(cat(cat(evalI(o.Left, dyn(visitor, *insertVisitor).cache), evalI(o.Right, dyn(visitor, *insertVisitor).cache)), posb(o.pos.Index, o.pos.Height)))
 func partialInnerHashOp.Accept
-  props C02 C04 C12
+  props C02 C03 C04 C12
   requires !isnil(visitor)
   modifies everything when !istype(visitor, *computeHashVisitor) && !istype(visitor, *insertVisitor)
   modifies dyn(visitor, *insertVisitor).mutations when istype(visitor, *insertVisitor)
   modifies cachePuts when istype(visitor, *insertVisitor)
   may_panic
   ensures C02/evalC-partial: istype(visitor, *computeHashVisitor) ==> bytes(result) == H(cat(evalC(o.Left, dyn(visitor, *computeHashVisitor).cache), posb(o.pos.Index, o.pos.Height)))
+  ensures C03/reads-partial: istype(visitor, *computeHashVisitor) ==> readsOK(o.Left, dyn(visitor, *computeHashVisitor).cache)
   ensures C04/evalI-partial: istype(visitor, *insertVisitor) ==> bytes(result) == H(cat(evalI(o.Left, dyn(visitor, *insertVisitor).cache), posb(o.pos.Index, o.pos.Height)))
 func getCacheOp.Accept
-  props C02 C04 C12
+  props C02 C03 C04 C12
   requires !isnil(visitor)
   modifies everything when !istype(visitor, *computeHashVisitor) && !istype(visitor, *insertVisitor)
   modifies dyn(visitor, *insertVisitor).mutations when istype(visitor, *insertVisitor)
   modifies cachePuts when istype(visitor, *insertVisitor)
   may_panic
   ensures C02/evalC-get: istype(visitor, *computeHashVisitor) ==> bytes(result) == pathval(dyn(visitor, *computeHashVisitor).cache, posb(o.pos.Index, o.pos.Height))
+  ensures C03/reads-get: istype(visitor, *computeHashVisitor) ==> pathhas(dyn(visitor, *computeHashVisitor).cache, posb(o.pos.Index, o.pos.Height))
   ensures C04/evalI-get: istype(visitor, *insertVisitor) ==> bytes(result) == pathval(dyn(visitor, *insertVisitor).cache, posb(o.pos.Index, o.pos.Height))
 func putCacheOp.Accept
   props C04
@@ -199,6 +204,7 @@ func opVisitor.VisitInnerHashOp
   modifies cachePuts when istype(self, *insertVisitor)
   may_panic
   ensures istype(self, *computeHashVisitor) ==> bytes(result) == H(cat(cat(evalC(op.Left, dyn(self, *computeHashVisitor).cache), evalC(op.Right, dyn(self, *computeHashVisitor).cache)), posb(op.pos.Index, op.pos.Height)))
+  ensures istype(self, *computeHashVisitor) ==> readsOK(op.Left, dyn(self, *computeHashVisitor).cache) && readsOK(op.Right, dyn(self, *computeHashVisitor).cache)
   ensures istype(self, *insertVisitor) ==> bytes(result) == H(cat(cat(evalI(op.Left, dyn(self, *insertVisitor).cache), evalI(op.Right, dyn(self, *insertVisitor).cache)), posb(op.pos.Index, op.pos.Height)))
 func opVisitor.VisitPartialInnerHashOp
   modifies everything when !istype(self, *computeHashVisitor) && !istype(self, *insertVisitor)
@@ -206,11 +212,13 @@ func opVisitor.VisitPartialInnerHashOp
   modifies cachePuts when istype(self, *insertVisitor)
   may_panic
   ensures istype(self, *computeHashVisitor) ==> bytes(result) == H(cat(evalC(op.Left, dyn(self, *computeHashVisitor).cache), posb(op.pos.Index, op.pos.Height)))
+  ensures istype(self, *computeHashVisitor) ==> readsOK(op.Left, dyn(self, *computeHashVisitor).cache)
   ensures istype(self, *insertVisitor) ==> bytes(result) == H(cat(evalI(op.Left, dyn(self, *insertVisitor).cache), posb(op.pos.Index, op.pos.Height)))
 func opVisitor.VisitGetCacheOp
   modifies everything when !istype(self, *computeHashVisitor) && !istype(self, *insertVisitor)
   may_panic
   ensures istype(self, *computeHashVisitor) ==> bytes(result) == pathval(dyn(self, *computeHashVisitor).cache, posb(op.pos.Index, op.pos.Height))
+  ensures istype(self, *computeHashVisitor) ==> pathhas(dyn(self, *computeHashVisitor).cache, posb(op.pos.Index, op.pos.Height))
   ensures istype(self, *insertVisitor) ==> bytes(result) == pathval(dyn(self, *insertVisitor).cache, posb(op.pos.Index, op.pos.Height))
 func opVisitor.VisitPutCacheOp
   modifies everything when !istype(self, *computeHashVisitor) && !istype(self, *insertVisitor)
@@ -240,17 +248,20 @@ func computeHashVisitor.VisitLeafHashOp
   may_panic
   ensures C02/leaf-hash: bytes(result) == H(cat(bytes(op.Value), posb(op.pos.Index, op.pos.Height)))
 func computeHashVisitor.VisitInnerHashOp
-  props C02 C12
+  props C02 C03 C12
   may_panic
   ensures C02/inner-hash: bytes(result) == H(cat(cat(evalC(op.Left, v.cache), evalC(op.Right, v.cache)), posb(op.pos.Index, op.pos.Height)))
+  ensures C03/reads-inner: readsOK(op.Left, v.cache) && readsOK(op.Right, v.cache)
 func computeHashVisitor.VisitPartialInnerHashOp
-  props C02 C12
+  props C02 C03 C12
   may_panic
   ensures C02/partial-hash: bytes(result) == H(cat(evalC(op.Left, v.cache), posb(op.pos.Index, op.pos.Height)))
+  ensures C03/reads-partial: readsOK(op.Left, v.cache)
 func computeHashVisitor.VisitGetCacheOp
-  props C02 C12
+  props C02 C03 C12
   may_panic
   ensures C02/cached-value: bytes(result) == pathval(v.cache, posb(op.pos.Index, op.pos.Height))
+  ensures C03/present: pathhas(v.cache, posb(op.pos.Index, op.pos.Height))
 
 // ---- C04: the history digest is a canonical function of the event sequence ----------
 // The inserting visitor computes the same hashes as evalI (history.spec); a single Add,
@@ -349,6 +360,8 @@ func pruneToVerify.traverse
 func pruneToVerifyIncrementalStart
   props C03 C12
   ensures !isnil(result)
+  ensures C03/start-height: version == theStart() ==> StartHOK()
+  ensures C03/start-root-value: version <= theEnd() && (AgreeE(0, uint16(len64(version)), true, true, version, theEnd(), thePath()) || AgreeE(0, uint16(len64(version)), true, false, version, theEnd(), thePath())) ==> evalC(result, thePath()) == Hist(0, uint16(len64(version)), version)
 // C03 (start side): if every value the END recomputation reads below pos is the true one
 // (AgreeE, history.spec), the START recomputation below pos yields the true hash of that subtree
 // in the tree of the start version. (theEnd(), thePath(): arbitrary, fixed.)
@@ -398,11 +411,12 @@ define TgtWF(t, e) = len(t) <= 2 && (len(t) == 2 ==> t[0] == theStart() && t[1] 
 define noWrap(i, h) = (h >= 64 && i == 0) || (h < 64 && i + ((uint64(1) << uint64(h)) - 1) >= i)
 define EndAnte(pos, targets, end) = pos.Height <= 64 && noWrap(pos.Index, pos.Height) && theStart() <= end && TgtWF(targets, end) && PathOK(thePath())
 define StartH() = uint16(len64(theStart()))
-define StartHOK() = StartH() <= 64 && (StartH() == 64 || theStart() < (uint64(1) << uint64(StartH())))
+define StartHOK() = StartH() <= 64 && (StartH() == 64 || theStart() < (uint64(1) << uint64(StartH()))) && (StartH() == 0 || theStart() >= (uint64(1) << uint64(StartH() - 1)))
 define SpineAgree(pos, targets, end) = pos.Index == 0 && TS(targets) && StartHOK() && StartH() <= pos.Height ==> AgreeE(0, StartH(), true, true, theStart(), end, thePath()) || AgreeE(0, StartH(), true, false, theStart(), end, thePath())
 func pruneToVerifyIncrementalEnd
   props C03 C12
   ensures !isnil(result)
+  ensures C03/end-root-binding: start == theStart() && start <= end && StartHOK() && PathOK(thePath()) && readsOK(result, thePath()) && evalC(result, thePath()) == Hist(0, uint16(len64(end)), end) ==> AgreeE(0, StartH(), true, true, theStart(), end, thePath()) || AgreeE(0, StartH(), true, false, theStart(), end, thePath())
 func pruneToVerifyIncrementalEnd.traverse
   props C03 C12
   requires pos != nil
@@ -467,6 +481,20 @@ func MembershipProof.Verify
   props C02 C12
   ensures C02/history-binding: box(p.AuditPath) == thePath() && result && p.Index <= p.Version && bytes(expectedRootHash) == Hist(0, uint16(len64(p.Version)), p.Version) ==> bytes(eventDigest) == ev(p.Index)
 
+// ASSUMED link between the audit-path map and its abstraction as a cache (pathhas/pathval):
+// if every value of the map has the digest length of the hasher (what the loop checks), every
+// value present in the abstraction has the length of a digest of H. The loop itself is not
+// verified (the abstraction of map contents as byte strings is not connected to the map).
+func AuditPath.wellFormed
+  props C12
+  requires !isnil(hasher)
+  assumes result ==> PathOK(box(p))
+
+// C03, soundness of consistency proofs (the history tree's): a proof that verifies against the
+// TRUE root hash of the end version is a proof FOR the true root hash of the start version -
+// a start digest from another history (a fork) is not accepted. (thePath(), theStart(),
+// theEnd(): arbitrary, fixed; H collision resistant.)
 func IncrementalProof.Verify
   props C03 C12
+  ensures C03/fork-exposed: box(p.AuditPath) == thePath() && p.StartVersion == theStart() && p.EndVersion == theEnd() && p.StartVersion <= p.EndVersion && result && bytes(endDigest) == Hist(0, uint16(len64(p.EndVersion)), p.EndVersion) ==> bytes(startDigest) == Hist(0, uint16(len64(p.StartVersion)), p.StartVersion)
 @*/
